@@ -258,7 +258,7 @@ func (q *c38q) publish(i int, dropped bool) {
 	off := vU64("pub_off")
 	vAssume(off != math.MaxUint64)
 	e := c38ent{pub: &Publication{Offset: off, Data: []byte{byte(i)}}, sp: StreamPosition{Offset: off, Epoch: "1"},
-		prev: &Publication{Offset: off - 1}, delta: vBool("delta")}
+		prev: &Publication{Offset: off - 1, Data: []byte{byte(100 + i), 0}}, delta: vBool("delta")}
 	q.m.broadcastPublication(e.pub, e.sp, e.delta, e.prev)
 	if !dropped {
 		q.ents = append(q.ents, e)
@@ -349,6 +349,21 @@ func (q *c38q) check() {
 // sequential driver: the writer goroutine only runs when the harness lets it
 // ("run" operation), so the queue content at every enqueue is known and the
 // size limit (symbolic) is part of the reference.
+// c38queuedBytes recomputes the pending payload bytes from the entries the
+// ring holds.
+func c38queuedBytes(pq *publicationQueue) int {
+	pq.mu.RLock()
+	defer pq.mu.RUnlock()
+	sum := 0
+	for i := 0; i < pq.cnt; i++ {
+		e := pq.nodes[(pq.head+i)%len(pq.nodes)]
+		if e.Publication.pub != nil {
+			sum += len(e.Publication.pub.Data)
+		}
+	}
+	return sum
+}
+
 func vh_C38_queue() {
 	k := vParam("c38_qk", 4)
 	maxSize := vRange("queue_max", 0, 2)
@@ -356,10 +371,11 @@ func vh_C38_queue() {
 	for step := 0; step < k && !q.closed; step++ {
 		switch vChoice("op", 4) {
 		case 0:
-			// reference for the size limit: bytes of the publications still queued
-			// (read from the real queue; nothing runs between this read and the
+			// reference for the size limit: payload bytes of the publications
+			// still queued, recomputed from the ring's contents (not the queue's
+			// own running counter; nothing runs between this read and the
 			// enqueue), limit = queueMaxSize or 16MB when 0.
-			over := vAnd(maxSize > 0, q.m.messages.Size() > maxSize)
+			over := vAnd(maxSize > 0, c38queuedBytes(q.m.messages) > maxSize)
 			if over { // forks like the code under test
 				q.publish(step, true)
 				vCover(true, "size-limit-drop")
